@@ -286,6 +286,11 @@ def _alias_class(e, d, kind, depth=0):
         recv_is_module = isinstance(fn, ast.Attribute) and isinstance(fn.value, ast.Name) and fn.value.id in ("np", "numpy", "cupy", "cp")
         if name in ("copy", "tobytes", "astype", "get", "tolist", "asnumpy"):
             return "copy"
+        if name in ("require", "asfortranarray", "asanyarray", "ascontiguousarray", "asarray") and recv_is_module:
+            # numpy's "make it satisfy ..." functions hand the argument back when it already does and a COPY when it does
+            # not (np.require with 'A': a misaligned typed view of the storage, i.e. any offset that is not a multiple of
+            # the item size): a may-copy
+            return "maycopy"
         if name in ("bytearray", "bytes", "array", "ascontiguousarray", "asarray", "copy") and (recv_is_module or isinstance(fn, ast.Name)):
             # np.asarray / ascontiguousarray MAY return the argument itself; as the result of a primitive that must alias
             # or must copy, "may copy" is not good enough either way: classify as copy for viewing, unknown for extracting
@@ -319,7 +324,7 @@ def b2(cx):
                 got = _alias_class(r.value, d, kind)
                 if got is None or (got == "maycopy"):
                     if got == "maycopy" and want == "view":
-                        cx.bad(r, construct=f"{mname}: {short(r.value)}", detail="the result may be a copy (asarray/ascontiguousarray copy whenever they have to): writes through the view then do not reach the buffer")
+                        cx.bad(r, construct=f"{mname}: {short(r.value)}", detail="the result may be a copy (np.asarray / ascontiguousarray / require / asfortranarray copy whenever the argument does not already satisfy what they are asked for -- e.g. a typed view at an offset that is not a multiple of the item size is not aligned): writes through the view then do not reach the buffer, later writes to the buffer do not show in it")
                         continue
                     raise AnalysisError(f"[B2] {spec}.{mname}: copy/view class of `{short(r.value)}` cannot be determined")
                 if want == "copy":
@@ -517,15 +522,26 @@ def sc(cx):
             d = _Obj("dtype", {"name": name, "itemsize": SIZES.get(name, 16), "str": name}, name=f"dtype({name})")
 
             def conv(v=0):
-                # dtype.type(x): one number for a scalar x, an ARRAY for a sequence x (its bytes are len(x) items long)
-                count = len(v) if isinstance(v, (list, tuple)) else 1
+                # dtype.type(x): one number (0-d) for a scalar x, an ARRAY of the nested sequence's shape for a sequence x
+                # (its bytes are prod(shape) items long; len() is its FIRST extent)
+                shape = []
+                w = v
+                while isinstance(w, (list, tuple)):
+                    shape.append(len(w))
+                    w = w[0] if w else None
+                count = 1
+                for d_ in shape:
+                    count *= d_
 
                 def tobytes():
                     b_ = _Obj("bytes", {"__len__": _B("len", lambda: count * SIZES.get(name, 16))}, name=f"bytes-of {name}({v!r})")
                     b_.src = ("bytes-of", name, v)
                     return b_
 
-                return _Obj("npscalar", {"tobytes": _B("tobytes", tobytes), "dtype": d}, name=f"{name}({v!r})")
+                attrs = {"tobytes": _B("tobytes", tobytes), "dtype": d, "ndim": len(shape), "shape": tuple(shape), "size": count, "nbytes": count * SIZES.get(name, 16), "itemsize": SIZES.get(name, 16)}
+                if shape:
+                    attrs["__len__"] = _B("len", lambda: shape[0])
+                return _Obj("npscalar", attrs, name=f"{name}({v!r})")
 
             d.attrs["type"] = _B(f"{name}.type", conv)
             made[name] = d
@@ -587,18 +603,27 @@ def sc(cx):
         okw = len(w) == 1 and w[0][0] == "update_from_buffer" and w[0][1].get("offset") == OFFS and isinstance(srcw, tuple) and srcw[:2] == ("bytes-of", dt) and isinstance(srcw[2], _Op) and srcw[2].tag == "val"
         cx.check(okw, None, construct=f"{nm}._to_buffer: update_from_buffer(offset, dtype('{dt}').type(value).tobytes())", detail="value converted with its dtype, its bytes written at offset",
                  bad_detail=f"write is {[(k, {a: repr(b) for a, b in dct.items()}) for k, dct in w]}", sub="write", anchor=anchor + "._to_buffer")
-        # a SEQUENCE given for one number must not be written (its bytes are longer than the slot)
-        k1 = len(log)
-        seq_exc = None
-        try:
-            r2 = I.explore(lambda: I.call(I.getattr(T, "_to_buffer"), [buf, OFFS, [7, 8, 9]], {}), max_paths=4)
-            seq_exc = r2[0]["exc"] if len(r2) == 1 else "fork"
-        except AnalysisError as e_:
-            seq_exc = "fork"
-        wrote = [e_ for e_ in log[k1:] if e_[0] == "update_from_buffer"]
-        cx.recog(seq_exc != "fork", None, f"scalar {nm}: _to_buffer of a sequence: evaluation forks")
-        cx.check(seq_exc is not None and not wrote, None, construct=f"{nm}._to_buffer(buffer, offset, [7, 8, 9])", detail="a sequence is refused for a scalar slot, nothing is written",
-                 bad_detail=f"a 3-item sequence is written into the {size}-byte slot of one {nm} ({3 * size} bytes): the next field / item / object is overwritten", sub="write.len", anchor=anchor + "._to_buffer")
+        # a SEQUENCE given for one number must not be written (its bytes are longer than the slot) -- flat, nested with a
+        # leading extent of 1 (len() == 1, three numbers), a column, a pair
+        for seq in ([7, 8, 9], [[7, 8, 9]], [[7], [8]], (7, 8), [[[1, 2]]]):
+            k1 = len(log)
+            seq_exc = None
+            try:
+                r2 = I.explore(lambda: I.call(I.getattr(T, "_to_buffer"), [buf, OFFS, seq], {}), max_paths=4)
+                seq_exc = r2[0]["exc"] if len(r2) == 1 else "fork"
+            except AnalysisError as e_:
+                raise AnalysisError(f"[SC] scalar {nm}: _to_buffer of {seq!r} cannot be evaluated: {e_}")
+            wrote = [e_ for e_ in log[k1:] if e_[0] == "update_from_buffer"]
+            cx.recog(seq_exc != "fork", None, f"scalar {nm}: _to_buffer of a sequence: evaluation forks")
+            if seq_exc is not None and getattr(seq_exc, "etype", "") in ("AttributeError", "NameError"):
+                raise AnalysisError(f"[SC] scalar {nm}: _to_buffer of {seq!r}: {seq_exc.etype}: {seq_exc.msg} (model of the converted value)")
+            nnum = 1
+            w_ = seq
+            while isinstance(w_, (list, tuple)):
+                nnum *= len(w_)
+                w_ = w_[0]
+            cx.check(seq_exc is not None and not wrote, None, construct=f"{nm}._to_buffer(buffer, offset, {seq!r})", detail="a sequence is refused for a scalar slot, nothing is written",
+                     bad_detail=f"{nnum} numbers are written into the {size}-byte slot of one {nm} ({nnum * size} bytes): the next field / item / object is overwritten", sub="write.len", anchor=anchor + "._to_buffer")
         aw = out["aw"]
         cx.check(len(aw) == 1 and aw[0][0] == "update_from_buffer" and aw[0][1].get("offset") == OFFS and aw[0][1].get("source") == ("array-bytes",), None, construct=f"{nm}._array_to_buffer: update_from_buffer(offset, value.tobytes())", detail="array bytes written at offset",
                  bad_detail=f"array write is {aw!r}", sub="array-write", anchor=anchor + "._array_to_buffer")
